@@ -235,7 +235,7 @@ class C03(Check):
             "another member, or stays unloaded although referenced weakly; distinct by canonical graph + order")
     assumptions = ["lld 14 is the reference for archive semantics",
                    "a file is part of the link iff its marker symbol is in .symtab under --no-gc-sections"]
-    quick_cases = 400
+    quick_cases = 240
     thorough_cases = 10000
     max_workers = 16
 
@@ -249,7 +249,7 @@ class C03(Check):
     ]
 
     def _wild(self, args, d, out, extra=(), env=None):
-        w = tools.link("wild", [*extra, *args, "-o", out], cwd=d, env=env)
+        w = symgen.link("wild", [*extra, *args, "-o", out], cwd=d, env=env)
         if w.timed_out:
             raise Inconclusive("wild timed out")
         if symgen.wild_crashed(w):
@@ -285,7 +285,7 @@ class C03(Check):
         info = {"nontrivial": bool(transitive or weak_only), "classes": classes, "counters": {},
                 "key": self._key(case, order)}
 
-        r = tools.link("lld", [*args, "-o", "r.out"], cwd=d)
+        r = symgen.link("lld", [*args, "-o", "r.out"], cwd=d)
         if r.timed_out:
             raise Inconclusive("lld timed out")
         if r.rc != 0:
@@ -343,7 +343,7 @@ class C03(Check):
                 s2 = observed_set(f"{d}/w-alt.out", fids) if w2.rc == 0 else None
                 if s2 == base:
                     continue
-                r2 = tools.link("lld", [*a2, "-o", "r-alt.out"], cwd=d)
+                r2 = symgen.link("lld", [*a2, "-o", "r-alt.out"], cwd=d)
                 if r2.rc != 0 or observed_set(f"{d}/r-alt.out", fids) != loaded:
                     classes.append("split:alt-order")
                     continue
